@@ -22,6 +22,16 @@ def c09 : List String → Option String
       match ipauli n lo hi with
       | none => pure "AssertionError"
       | some l => pure ("ok " ++ " ".intercalate (l.map showPStr))
+  -- length of the sequence plus its elements at the given positions ("-" beyond the end): the same `ipauli` the
+  -- theorems are about, for ranges whose full sequence is too long for the wire
+  | ["ipauliat", n, lo, hi, ks] => do
+      let n ← parseNat? n; let lo ← parseNat? lo; let hi ← parseNat? hi; let ks ← parseNatList? ks
+      match ipauli n lo hi with
+      | none => pure "AssertionError"
+      | some l =>
+        let arr := l.toArray
+        pure ("ok " ++ toString arr.size ++ " " ++ " ".intercalate (ks.map fun k =>
+          match arr[k]? with | some p => showPStr p | none => "-"))
   | ["pack", b] => do
       let b ← parseBits? b
       let (bytes, len) := pack b
